@@ -45,6 +45,7 @@ def run(rep):
     rep.guard(c10.v6, rep, w)          # ... and so does a difference of two program-chosen lengths taken without comparing them
     import c08
     rep.guard(c08.x2b, rep, w)         # a handler popped too many leaves JumpFinally / PopExcHandler with nothing to pop: expect() panics
+    rep.guard(c08.x19, rep, w, 'C02')  # ... and so does a parked return that survives the exception which replaced it (its JumpFinally runs with no handler)
     import c04
     rep.guard(c04.b5, rep, w)          # value-stack capacity below frames x locals: the unchecked push of optimised builds writes past the allocation
     import c06
